@@ -68,6 +68,14 @@ def lossless(seed, n):
             if b"%p" not in date:
                 tm = tm + [b"%p"] if r.random() < 0.5 else [b"%p"] + tm
         parts = [year] + date + [off]
+        # redundant %O-modified conversions (handed to the C library) repeating a field the format already carries: they
+        # change nothing about the instant, wherever they stand relative to the hour / AM-PM / seconds fields
+        if r.random() < 0.35:
+            twelve = b"%I" in tm
+            extra = [b"%OM", b"%OS", b"%OI" if twelve else b"%OH"]
+            if date[0] in (b"%m", b"%b", b"%B", b"%h"):
+                extra += [b"%Od", b"%Om"]
+            parts = parts + r.sample(extra, r.choice([1, 1, 2]))
         # the time items keep their relative order when seconds and fraction are separate (the fraction must follow)
         r.shuffle(parts)
         pos = r.randrange(len(parts) + 1)
